@@ -144,11 +144,27 @@ func symRangeC08(tag string) (time.Time, time.Time) {
 	return time.Time{}, time.Time{}
 }
 
+// symMatchText: match text is either an opaque string of any length or one
+// or two arbitrary printable ASCII bytes, blanks and XML metacharacters
+// included (byte-level code such as trimming can only act on the latter).
+var verifTextForm = -1
+
+func symMatchText(name string) string {
+	// one choice per path for all texts: all opaque or all bytes
+	if verifTextForm < 0 {
+		verifTextForm = vrt.Choose("text-form", 2)
+	}
+	if verifTextForm == 0 {
+		return vrt.Str(name)
+	}
+	return vrt.StrNIn(name+"-bytes", 1+vrt.Choose(name+"-len", 2), ' ', '~')
+}
+
 func symTextC08() *TextMatch {
 	if vrt.Choose("hastext", 2) == 0 {
 		return nil
 	}
-	return &TextMatch{Text: vrt.Str("text"), NegateCondition: vrt.Bool("negate")}
+	return &TextMatch{Text: symMatchText("text"), NegateCondition: vrt.Bool("negate")}
 }
 
 func symPropFilterC08() PropFilter {
@@ -221,6 +237,7 @@ func newVerifClient(hc *internal.VerifHTTPClient) *Client {
 // VerifH_C08_ClientQuery: every conformant CalendarQuery is sent as the
 // calendar-query it denotes (filter tree, flags, texts, instants, selection).
 func VerifH_C08_ClientQuery() {
+	verifTextForm = -1
 	internal.VerifResetWire()
 	internal.VerifCopyHook = verifCopy
 	q := &CalendarQuery{CompFilter: symCompFilterC08(0)}
@@ -317,6 +334,12 @@ func symWireNegateC08() (negateCondition, bool, bool) {
 		return false, true, false
 	}
 	s := vrt.Str("negate-condition")
+	if verifTextForm < 0 {
+		verifTextForm = vrt.Choose("text-form", 2)
+	}
+	if verifTextForm == 1 {
+		s = vrt.StrN("negate-condition-bytes", 3)
+	}
 	var nc negateCondition
 	err := nc.UnmarshalText([]byte(s))
 	valid := s == "yes" || s == "no"
@@ -336,7 +359,7 @@ func symWireText(w *wireWant) *textMatch {
 	if !ok {
 		w.refused = true
 	}
-	return &textMatch{Text: vrt.Str("text"), NegateCondition: nc}
+	return &textMatch{Text: symMatchText("text"), NegateCondition: nc}
 }
 
 func symWireRange(tag string) *timeRange {
@@ -445,6 +468,7 @@ func checkBackendCompReq(cd *calendarDataReq, got *CalendarCompRequest, where st
 // VerifH_C08_ServerQuery: a conformant calendar-query wire struct reaches the
 // backend as the query it denotes.
 func VerifH_C08_ServerQuery() {
+	verifTextForm = -1
 	internal.VerifResetWire()
 	internal.VerifCopyHook = verifCopy
 	w := &wireWant{}
